@@ -25,7 +25,7 @@ EVIDENCE_DIR = os.environ.get("C44_EVIDENCE_DIR", os.path.join(V, "evidence"))
 REPLAY_DIR = os.environ.get("C44_REPLAY_DIR", os.path.join(V, "replays", PROP))
 
 QUICK_N = int(os.environ.get("C44_N", "1600"))
-QUICK_WALL_CAP_S = float(os.environ.get("C44_WALL_CAP_S", "75"))
+QUICK_WALL_CAP_S = float(os.environ.get("C44_WALL_CAP_S", "55"))
 THOROUGH_N = int(os.environ.get("C44_N", "200000"))
 THOROUGH_WALL_CAP_S = float(os.environ.get("C44_WALL_CAP_S", "900"))
 
@@ -67,6 +67,10 @@ COMPONENTS = {
         "the real kanidm server's unix credential verification (server/lib idm unix auth)",
     ],
 }
+
+# cache row vs model early-warning counters: non-zero would mean the real cache holds a credential the
+# model does not know of (or the reverse) before any offline decision exposed it
+EXPECTED_ZERO = ("cache_row_without_model_credential", "model_credential_without_cache_row")
 
 RULE = (
     "A case is one history generated from one integer (VERIF_SEED*2^32+i): 1-3 machines (own auth value, own SQLite cache + key store, "
@@ -301,7 +305,8 @@ def check(tier):
             "faults_fired": agg["faults"],
             "faults_at_zero": [k for k in fault_kinds if agg["faults"].get(k, 0) == 0],
             "probes": agg["probes"],
-            "probes_at_zero": [k for k in probe_kinds if agg["probes"].get(k, 0) == 0],
+            "probes_at_zero": [k for k in probe_kinds if agg["probes"].get(k, 0) == 0 and k not in EXPECTED_ZERO],
+            "divergence_probes_expected_zero": {k: agg["probes"].get(k, 0) for k in EXPECTED_ZERO},
             "distinct_schedules_or_states": len(contexts),
             "distinct_run_shapes": shapes,
             "distinct_violation_signatures": [f"{o}: {s}" for (o, s) in sorted(groups)],
